@@ -20,7 +20,11 @@ func runC01(cfg *runCfg) error {
 			continue
 		}
 		for _, c := range [][3]bool{{false, false, false}, {true, true, false}} {
-			rsEnumerate(w, depth, c[0], c[1], c[2], func(sc *rsScenario) { enum = append(enum, sc) })
+			d := depth
+			if cfg.tier == "thorough" && rsPacketsBound(w.Ops) <= 3 {
+				d = 3 // every placement of three consecutive faults for the small workloads
+			}
+			rsEnumerate(w, d, c[0], c[1], c[2], func(sc *rsScenario) { enum = append(enum, sc) })
 		}
 	}
 	fams := []rsFamily{
